@@ -131,6 +131,7 @@ func runC17(c *harness.Ctx, idx int) {
 		return
 	}
 	c.Count("items", int64(res.Items))
+	c.Count("_evaluations", int64(res.Items))
 	c.Count("legacy_calls", int64(res.LegacyCalls))
 	if res.Digest != def.Digest {
 		c.Violation("digest", "C17/digest-differs/"+place, "results differ from the default configuration under depth=%q size=%q placement=%s (digest %s vs %s)", depth, size, place, res.Digest[:16], def.Digest[:16])
